@@ -139,7 +139,7 @@ template <class Q, class E, bool BOUNDED> struct Run {
         vf_liveness(1);
         std::vector<int> ids = gated(nthreads, nullptr, [&](int i) { thread_body(progs[i], i); });
         open_window_and_join(ids);
-        vf_liveness(0); g_arm = false;
+        g_arm = false;   /* liveness stays on: the sequential phase that follows must terminate too */
         // drain sequentially; the drain ops are part of the history
         for (;;) { int i = log.begin(K_TRYPOP, 0); long r = do_op({K_TRYPOP, 0}, 0, aborter); log.end(i, r); if (r == R_EMPTY) break; }
         // aborted calls must overlap an abort
